@@ -159,11 +159,13 @@ def jobs(tier, seed):
     # selection, then an observed operation on it -- with and without an earlier read of the selection or its source
     fins = []
     for sel in ("rowrev", "rowlist", "mask", "colrev", "rowslice_a", "colstep2"):
-        for fk in ("rowsum", "colsum", "any", "rslice", "padded", "unique", "rowint", "colslice", "nonzero", "max"):
+        for fk in ("rowsum", "colsum", "any", "rslice", "padded", "unique", "rowint", "colslice", "nonzero", "max", "colint", "rowcolint", "colvals"):
             for rk in ("repr", "ravel", "index_view", "rowsum"):
                 for target in ("a", "b"):
                     fins.append(dict(sel=sel, read=dict(target=target, kind=rk, pos=1), final=dict(target="b", kind=fk)))
-    corefin = [s_ for s_ in fins if s_["sel"] in ("rowrev", "rowlist") and s_["final"]["kind"] in ("rowsum", "colsum", "any", "rslice") and s_["read"]["kind"] in ("repr", "index_view") and s_["read"]["target"] == "b"]
+    corefin = [s_ for s_ in fins if s_["read"]["target"] == "b" and s_["read"]["kind"] in ("repr", "index_view") and (
+        (s_["sel"] in ("rowrev", "rowlist") and s_["final"]["kind"] in ("rowsum", "colsum", "any", "rslice"))
+        or (s_["sel"] in ("rowslice_a", "rowrev", "colstep2") and s_["final"]["kind"] in ("colint", "rowcolint")))]
     restfin = [s_ for s_ in fins if s_ not in corefin]
     rnd.shuffle(restfin)
     sks += corefin + (restfin[:30] if q else restfin)
@@ -176,6 +178,17 @@ def jobs(tier, seed):
                     deep.append(dict(sel=sel, sel2=sel2, write=w, read=dict(target=target, kind=rk, pos=pos)))
     rnd.shuffle(deep)
     sks += deep[:24] if q else deep
+    # a selection of a still pending selection, no write at all: c must not depend on whether b (or a) was read before c was taken
+    deep2 = []
+    for sel in SELS + ["colstepm2"]:
+        for sel2 in ("colrev", "colstepm2", "colstep2", "colslice_a", "rowrev", "rowlist", "mask", "rowslice_a"):
+            for rk in ("repr", "rowsum"):
+                for target in ("b", "a"):
+                    deep2.append(dict(sel=sel, sel2=sel2, read=dict(target=target, kind=rk, pos=1)))
+    core2 = [s_ for s_ in deep2 if s_["read"] == dict(target="b", kind="repr", pos=1) and s_["sel"] in ("colstep2", "colrev", "colstepm2", "rowrev", "rowslice_a") and s_["sel2"] in ("colrev", "colstepm2", "colslice_a", "rowrev")]
+    rest2 = [s_ for s_ in deep2 if s_ not in core2]
+    rnd.shuffle(rest2)
+    sks += core2 + (rest2[:20] if q else rest2)
     return [dict(h="C10.history", p=dict(base, sk=sk)) for sk in sks]
 
 
